@@ -8,6 +8,7 @@ package main
 
 import (
 	"go/ast"
+	"go/token"
 	"go/types"
 	"sort"
 	"strings"
@@ -377,10 +378,40 @@ func (p *Prog) optionRefusesAfterConstruction(f *Func) bool {
 	if f.Body == nil || len(f.Body.List) == 0 {
 		return false
 	}
-	is, ok := f.Body.List[0].(*ast.IfStmt)
-	if !ok || !p.IsField(is.Cond, "Agent.constructed") || len(is.Body.List) == 0 {
-		return false
+	// Everything the closure does is done only where Agent.constructed is known to be false; where it is
+	// true the closure returns a non-nil error. (Decided on the CFG, so the test may be written as
+	// "if a.constructed { return err }", as its negation around the body, or through a named condition.)
+	g := p.CFG(f)
+	isConstructed := func(val bool) func(Fact) bool {
+		return func(ft Fact) bool { return ft.Op == "truth" && ft.Val == val && p.IsField(ft.X, "Agent.constructed") }
 	}
-	rs, ok := is.Body.List[len(is.Body.List)-1].(*ast.ReturnStmt)
-	return ok && len(rs.Results) == 1 && !p.isNilExpr(rs.Results[0])
+	refuses, guarded := false, true
+	for _, bl := range g.Blocks {
+		for _, n := range bl.Nodes {
+			facts := p.DominatingFactList(f, n)
+			switch {
+			case factListHas(facts, isConstructed(true)):
+				if rs, ok := n.(*ast.ReturnStmt); ok && len(rs.Results) == 1 && !p.isNilExpr(rs.Results[0]) {
+					refuses = true
+				}
+			case factListHas(facts, isConstructed(false)):
+			default:
+				// in front of the test: only the test itself (or naming it) is allowed
+				switch x := n.(type) {
+				case *ast.AssignStmt:
+					if len(x.Rhs) == 1 && pureBoolExpr(x.Rhs[0]) && x.Tok == token.DEFINE {
+						continue
+					}
+					guarded = false
+				case ast.Expr:
+					if !pureBoolExpr(x) {
+						guarded = false
+					}
+				default:
+					guarded = false
+				}
+			}
+		}
+	}
+	return refuses && guarded
 }
